@@ -249,3 +249,68 @@ func litValueRule(w *World, r *Result, only func(rel string) bool) int {
 	}
 	return n
 }
+
+// goTypesAPIRule: two go/types lookups that answer a narrower question than the one the analysis asks.
+// IDENT-SCOPE: an identifier of the analysed source (an *ast.Ident that stands on its own, not the Sel of a qualified
+// name) is resolved by `(*types.Scope).Lookup(id.Name)`: one scope, by name, ignoring the position of the identifier —
+// a local declaration that shadows the name is missed. The type checker already resolved it (types.Info.Uses / Defs,
+// ObjectOf), and types.Eval / Scope.LookupParent take the position into account.
+// METHOD-SET: `types.NewMethodSet(T)` of a type that is not known to be a pointer lists the methods with value receivers
+// only; a method value `v.m` on an addressable variable also reaches the pointer-receiver methods, so resolving such
+// an expression needs the method set of *T (types.NewPointer) or types.LookupFieldOrMethod(T, true, …).
+func goTypesAPIRule(w *World, r *Result, only func(rel string) bool) int {
+	n := 0
+	for _, fi := range sortedFuncs(w) {
+		rel := w.Rel(fi.Obj.Pkg())
+		if fi.Decl.Body == nil || (only != nil && !only(rel)) {
+			continue
+		}
+		info := fi.Pkg.TypesInfo
+		ast.Inspect(fi.Decl.Body, func(x ast.Node) bool {
+			call, ok := x.(*ast.CallExpr)
+			if !ok {
+				return true
+			}
+			switch fullName(calleeOf(info, call)) {
+			case "(*go/types.Scope).Lookup":
+				if len(call.Args) != 1 {
+					return true
+				}
+				sel, ok := ast.Unparen(call.Args[0]).(*ast.SelectorExpr)
+				if !ok || sel.Sel.Name != "Name" {
+					return true
+				}
+				if t := info.TypeOf(sel.X); t == nil || t.String() != "*go/ast.Ident" {
+					return true
+				}
+				n++
+				cons := normLocals(info, call)
+				if inner, isSel := ast.Unparen(sel.X).(*ast.SelectorExpr); isSel && inner.Sel.Name == "Sel" {
+					r.ok("IDENT-SCOPE", fi.Name, cons, w.Pos(call.Pos()), "the name is the selector of a qualified identifier: it can only live in the scope of the package named before the dot", true)
+				} else {
+					r.bad("IDENT-SCOPE", fi.Name, cons, w.Pos(call.Pos()), "an identifier of the analysed source is looked up by name in a single scope: a declaration that shadows the name where the identifier stands (a local constant with the name of a package-level one) is ignored and the outer object is used silently; the type checker's own resolution (Info.Uses/ObjectOf) or a lookup at the identifier's position (types.Eval, Scope.LookupParent) is what answers `what does this identifier denote here`")
+				}
+			case "go/types.NewMethodSet":
+				if len(call.Args) != 1 {
+					return true
+				}
+				n++
+				cons := normLocals(info, call)
+				ptr := false
+				if c2, ok := ast.Unparen(call.Args[0]).(*ast.CallExpr); ok && fullName(calleeOf(info, c2)) == "go/types.NewPointer" {
+					ptr = true
+				}
+				if t := info.TypeOf(call.Args[0]); t != nil && t.String() == "*go/types.Pointer" {
+					ptr = true
+				}
+				if ptr {
+					r.ok("METHOD-SET", fi.Name, cons, w.Pos(call.Pos()), "method set of a pointer type: value- and pointer-receiver methods", true)
+				} else {
+					r.bad("METHOD-SET", fi.Name, cons, w.Pos(call.Pos()), "the method set of a type that may be a non-pointer lists value-receiver methods only: a method value taken on an addressable variable of that type (`v.m` with `func (*T) m()`) is legal Go and is not found here; use the method set of the pointer type or types.LookupFieldOrMethod(T, true, …)")
+				}
+			}
+			return true
+		})
+	}
+	return n
+}
